@@ -126,7 +126,15 @@ fn judge_cl(cx: &mut Cx, c: P2, r: f64, ld: LineDef, margin: f64, exact_zero: bo
         CircleLineIntersection::Touch(p) => (Want::Tangent, vec![pp(p)]),
         CircleLineIntersection::Intersect(p, q) => (Want::Two, vec![pp(p), pp(q)]),
     };
-    // IntoIterator yields the same points
+    // IntoIterator yields the same points, from either end and through any mix of iterator calls
+    {
+        let want_bits: Vec<(u64, u64)> = pts.iter().map(|p| (p.x.to_bits(), p.y.to_bits())).collect();
+        let mut r = Rng::new(common::mix(&[want_bits.len() as u64, c.x.to_bits(), r.to_bits()]));
+        let again = lib!(intersect_cl(&circle, &line));
+        if let Err(e) = common::iter_protocol_de(again.into_iter().map(|p| (p.x.to_bits(), p.y.to_bits())), &want_bits, &mut r, 6) {
+            cx.violation("cl_into_iter", Json::obj().set("what", "IntoIterator of CircleLineIntersection, driven from both ends, does not yield exactly the reported points").set("script", e));
+        }
+    }
     let it: Vec<P2> = got.into_iter().map(|p| pp(&p)).collect();
     if it.len() != pts.len() {
         cx.violation("cl_into_iter", Json::obj().set("what", "IntoIterator of CircleLineIntersection yields a different number of points"));
@@ -214,6 +222,14 @@ fn judge_cc(cx: &mut Cx, c1: P2, r1: f64, c2: P2, r2: f64, m_out: f64, m_in: f64
             CircleIntersection::TouchOutside(p) => (Want::TangentOut, vec![pp(p)]),
             CircleIntersection::Intersect(p, q) => (Want::Two, vec![pp(p), pp(q)]),
         };
+        {
+            let want_bits: Vec<(u64, u64)> = pts.iter().map(|p| (p.x.to_bits(), p.y.to_bits())).collect();
+            let mut r = Rng::new(common::mix(&[want_bits.len() as u64, c1.x.to_bits(), r2.to_bits(), order as u64]));
+            let again = if order == 0 { lib!(intersect_cc(&a, &b)) } else { lib!(intersect_cc(&b, &a)) };
+            if let Err(e) = common::iter_protocol_de(again.into_iter().map(|p| (p.x.to_bits(), p.y.to_bits())), &want_bits, &mut r, 6) {
+                cx.violation("cc_into_iter", Json::obj().set("what", "IntoIterator of CircleIntersection, driven from both ends, does not yield exactly the reported points").set("script", e));
+            }
+        }
         let it: Vec<P2> = got.into_iter().map(|p| pp(&p)).collect();
         if it.len() != pts.len() {
             cx.violation("cc_into_iter", Json::obj().set("what", "IntoIterator of CircleIntersection yields a different number of points"));
@@ -829,7 +845,12 @@ fn run_real_case(case_seed: u64, rep: &mut Report, verbose: bool) {
                         judge_ll(&mut cx, l1, l2, Some(true), false);
                     }
                 } else {
-                    let delta = 10f64.powf(rng.f64_range(-3.0, 0.19)) * if rng.chance(1, 2) { 1.0 } else { -1.0 };
+                    let mut delta = 10f64.powf(rng.f64_range(-3.0, 0.19)) * if rng.chance(1, 2) { 1.0 } else { -1.0 };
+                    if rng.chance(1, 5) {
+                        // a right angle up to a tiny deviation (1e-12 .. 1e-6 rad), both lines far from the origin
+                        delta = std::f64::consts::FRAC_PI_2 + *rng.pick(&[0.0f64, 1e-12, 1e-10, 3e-10, 9e-10, 2e-9, 1e-8, 1e-6]) * if rng.chance(1, 2) { 1.0 } else { -1.0 };
+                        cx.rep.inc("nearly_perpendicular_line_pairs");
+                    }
                     let v = rot(P2 { x: 1.0, y: 0.0 }, a1 + delta);
                     // second line through a point near the first line so that the intersection stays in the box
                     let mut on1 = add(p, scale(u, rng.f64_range(-100.0, 100.0)));
